@@ -128,7 +128,7 @@ KeepAux == UNCHANGED <<pend, rot, atag>>
 (* one slot per kind of operation in flight, so that operations of different kinds may overlap *)
 NoneP == [kind |-> "none"]
 NoPend == [reg |-> NoneP, auth |-> <<>>, stats |-> NoneP, batch |-> NoneP, authsrv |-> NoneP,
-           migrate |-> NoneP, crashed |-> NoneP, sync |-> NoneP, recent |-> NoneP, credit |-> 0, fault |-> FALSE]
+           migrate |-> NoneP, crashed |-> NoneP, sync |-> NoneP, recent |-> NoneP, credit |-> 0, fault |-> FALSE, polled |-> TRUE]
 
 -----------------------------------------------------------------------------
 TReset ==
@@ -151,7 +151,7 @@ TStartBegin ==
      ELSE /\ up = "down" /\ up' = "catchup"
           /\ UNCHANGED <<now, gca, equip, pkidx, bans, offset, live, impact,
                          archive, servers, migr, disk, seen>>
-  /\ rot' = "idle" /\ UNCHANGED <<pend, atag>>
+  /\ rot' = "idle" /\ pend' = [pend EXCEPT !.polled = FALSE] /\ UNCHANGED atag
 
 TStart ==
   /\ Ev.a = "Start"
@@ -179,6 +179,9 @@ TClose ==
   /\ Ev.a = "Close"
   /\ Close
   /\ ("Close" \in Strict => Ev.panic = "" /\ ~Ev.hang)
+  \* the rotation thread polls right after the start-up catch-up (which stops below CatchUpBound, above the
+  \* trigger): a server that was started has polled at least once by the time it is closed
+  /\ ("RotFirstPoll" \in Strict /\ up = "up" => pend.polled)
   /\ KeepAux
 
 (* The start-up loop's poll is also the first observation of the state that *)
@@ -204,7 +207,8 @@ TRotPoll ==
   /\ Ev.a = "RotPoll"
   /\ ("Rotate" \in Strict => Ev.ero = offset /\ rot = "idle")
   /\ rot' = IF RotationDue(Ev.ero, Ev.t) THEN "due" ELSE "idle"
-  /\ UNCHANGED <<vars, pend, atag>>
+  /\ pend' = [pend EXCEPT !.polled = TRUE]
+  /\ UNCHANGED <<vars, atag>>
 
 TRotGo ==
   /\ Ev.a = "RotGo"
